@@ -25,8 +25,21 @@ packets only at `last` or where flush was high; a packet that was not ACKed is r
 toggles after an ACK; an IN token is answered by exactly one of data / NAK, never by silence, and nothing is sent without an
 IN token for this endpoint; everything accepted is delivered once the stream is flushed and drained.
 
-Not judged: `discard`, `reset_sequence`/`start_with_data1` (held low; C14 covers toggle reset), how soon data becomes available
-after it was accepted (only the final drain is bounded), payload stability while the transmitter stalls.
+discard (audit follow-up): between transactions `discard` is raised for 1..90 cycles while the producer keeps streaming, sometimes with
+an IN token in the middle.  Reference meaning (the documented one): everything accepted and not yet acknowledged is dropped, a
+byte accepted in a cycle in which discard is sampled high is dropped, an owed ZLP is dropped, no packet is sent while it is high;
+afterwards the stream is again delivered exactly once, in order, with the toggle the host expects.  This is decidable only while no
+packet is outstanding un-ACKed (otherwise host and device cannot agree on the toggle whatever the device does): such episodes are
+generated too (40 %), but then only hangs / silence are judged.  discard is not raised between an IN token and the end of the
+packet it triggers (the block has no defined behaviour there; not in the property's quantifier).
+transfer_stream.ready (audit follow-up): bounded progress - an offered byte must be taken within 24 cycles whenever at most one
+packet (complete packet, un-ACKed ZLP or owed ZLP) is un-acknowledged, judged when flush was never used (flush cuts make the packet
+structure ambiguous) or when nothing at all is pending.
+Configurations: max packet size 8/16/32/64/512 (+ odd sizes stand-alone), device harness with 12 MHz (70 %) and 60 MHz (30 %) tables.
+
+Not judged: `reset_sequence`/`start_with_data1` (held low: the statement does not mention toggle reset, C14 judges it), discard in
+the middle of a packet, how soon data becomes available after it was accepted (a NAK is a violation only 16 cycles after a complete
+packet was accepted; the final drain is bounded), payload stability while the transmitter stalls.
 """
 from rv.sim import Bench
 from rv.ref.c11_inmodel import InOracle
@@ -48,7 +61,9 @@ REQUIRED_BINS = ["retry", "retry_while_other_buffer_fills", "zlp_after_full_pack
                  "delivery_after_discard", "input_stall_judged"]
 REQUIRED_EVENTS = ["input_bytes_accepted", "packets_seen", "host_packets_accepted", "host_bytes_accepted", "naks_seen", "acks_delivered",
                    "in_tokens", "cycles_monitored", "drains_completed"]
-ASSUMPTIONS = ["discard, reset_sequence and start_with_data1 are held low; generate_zlps is high (as in USBStreamInEndpoint)",
+ASSUMPTIONS = ["reset_sequence and start_with_data1 are held low; generate_zlps is high (as in USBStreamInEndpoint)",
+               "discard is raised only between transactions; its effect is judged by its documented meaning and only while no packet is outstanding un-ACKed",
+               "transfer_stream.ready liveness is judged only without flush or when nothing is pending (bound 24 cycles)",
                "the host never sends a token while the device is transmitting and answers only intact packets with ACK",
                "a flush pulse may legitimately be ignored unless it is held: only the final drain (flush held) is a liveness obligation",
                "manager harness: tokens are at least 2 cycles before ready_for_response, ACKs arrive >= 2 cycles after the last payload byte"]
